@@ -13,8 +13,8 @@ import squeeth_gen as G
 PROPERTY = "C01"
 LEAN_MODULES = ["Proofs.C01.Squeeth"]
 DRIVERS = ["driver_squeeth"]
-RULE = ("the C14 operation sequences (vault operations with and without LP collateral, pool-side remove_liquidity, liquidations along price / "
-        "norm-factor paths); after every step the raw state is valued independently (exact fractions, closed-form Uniswap amounts) and compared "
+RULE = ("the C14 operation sequences (vault operations with and without LP collateral, pool-side remove_liquidity, buy_squeeth / sell_squeeth in both "
+        "parameter forms, liquidations along price / norm-factor paths); after every step the raw state is valued independently (exact fractions, closed-form Uniswap amounts) and compared "
         "with SqueethMarket.get_market_balance, UniLpMarket.get_market_balance and Broker.get_account_status, and the model's views are diffed "
         "field by field; bucket = (last operation, outcome, #vaults with LP, #free positions, path kind)")
 TRUSTED = ["the TWAP geometric mean is an oracle value captured from the real calc_twap_price",
